@@ -11,7 +11,7 @@ use serde::{Deserialize, Serialize};
 pub fn def() -> PropDef {
     PropDef {
         id: "C12",
-        rule: "generated: codec family x engine x configuration x received-set spec x index probes {0, count-1, count, count+1, 2^32, usize::MAX-1, usize::MAX, random} x 1..20 consecutive rounds on one encoder and one decoder without explicit reset (new data and a new received set each round). oracle: recovery(i) is Some of the configured length iff i < recovery_count, the iterator yields exactly recovery(0..r) in order and then None on 5 further calls; restored_original(i) is Some iff i < original_count and not given (never when all were given), the iterator yields exactly those pairs ascending, then None 5 times; restored bytes equal the encoded originals; every round after a dropped result accepts all adds and is right again. part iter_protocol: generated sequences of std Iterator operations (next, nth, skip, step_by, take, count, last, fold, size_hint) on both result iterators must agree with a model iterator over exactly the expected items; and each of 22 consuming methods (for_each, count, last, fold, collect, extend, max, min, partition, all, position, reduce, and by-value adaptors map / enumerate / skip / step_by / take / chain / fuse / peekable / filter / zip) called DIRECTLY on a new iterator of the same result after a prefix of those operations (a method the iterator type overrides itself only runs when it is not reached through by_ref()). non-trivial: sparse received set with k >= 16, or a probe >= 2^32, or >= 3 rounds; distinct by full case",
+        rule: "generated: codec family x engine x configuration x received-set spec x index probes {0, count-1, count, count+1, 2^32, usize::MAX-1, usize::MAX, random} x 1..20 consecutive rounds on one encoder and one decoder without explicit reset (new data and a new received set each round). oracle: recovery(i) is Some of the configured length iff i < recovery_count, the iterator yields exactly recovery(0..r) in order and then None on 5 further calls; restored_original(i) is Some iff i < original_count and not given (never when all were given), the iterator yields exactly those pairs ascending, then None 5 times; restored bytes equal the encoded originals; every round after a dropped result accepts all adds and is right again. part iter_protocol: generated sequences of std Iterator operations (next, nth, skip, step_by, take, count, last, fold, size_hint) on both result iterators must agree with a model iterator over exactly the expected items; and each of 22 consuming methods (for_each, count, last, fold, collect, extend, max, min, partition, all, position, reduce, and by-value adaptors map / enumerate / skip / step_by / take / chain / fuse / peekable / filter / zip) called DIRECTLY on a new iterator of the same result after a prefix of those operations (a method the iterator type overrides itself only runs when it is not reached through by_ref()); and two iterators of the same result advanced alternately with index accessors called in between. non-trivial: sparse received set with k >= 16, or a probe >= 2^32, or >= 3 rounds; distinct by full case",
         assumptions: &[],
         parts,
     }
@@ -301,6 +301,24 @@ fn check_iter(c: &IterCase, st: &mut Stats) -> CheckResult {
                 let cut = ((c.seed >> (t % 16)) as usize ^ t) % (c.ops.len() + 1);
                 verdict = drive_terminal("recovery_iter", &c.ops[..cut], t, res.recovery_iter(), expected_rec.iter().map(|v| v.as_slice()));
             }
+            // two iterators of the same result advanced alternately, with index probes in between: each keeps its own position
+            if verdict.is_ok() {
+                verdict = (|| {
+                    let (mut a, mut b) = (res.recovery_iter(), res.recovery_iter());
+                    let (mut ma, mut mb) = (expected_rec.iter().map(|v| v.as_slice()), expected_rec.iter().map(|v| v.as_slice()));
+                    for (i, op) in c.ops.iter().enumerate() {
+                        if (c.seed >> (i % 64)) & 1 == 0 {
+                            drive_ops("recovery_iter (first of two interleaved iterators)", std::slice::from_ref(op), &mut a, &mut ma)?;
+                        } else {
+                            drive_ops("recovery_iter (second of two interleaved iterators)", std::slice::from_ref(op), &mut b, &mut mb)?;
+                        }
+                        let p = (c.seed as usize >> 7).wrapping_add(i * 5) % (r + 2);
+                        ensure!(res.recovery(p) == expected_rec.get(p).map(|v| v.as_slice()), "recovery({p}) called between iterator operations differs from the expected shard");
+                    }
+                    drive("recovery_iter (first of two interleaved iterators)", &[], &mut a, &mut ma)?;
+                    drive("recovery_iter (second of two interleaved iterators)", &[], &mut b, &mut mb)
+                })();
+            }
         })
     })
     .map_err(|p| format!("recovery iterator {p}"))?
@@ -331,6 +349,24 @@ fn check_iter(c: &IterCase, st: &mut Stats) -> CheckResult {
                 }
                 let cut = ((c.seed >> (t % 16)) as usize ^ t) % (c.ops.len() + 1);
                 verdict = drive_terminal("restored_original_iter", &c.ops[..cut], t, res.restored_original_iter(), expected_res.iter().cloned());
+            }
+            if verdict.is_ok() {
+                verdict = (|| {
+                    let (mut a, mut b) = (res.restored_original_iter(), res.restored_original_iter());
+                    let (mut ma, mut mb) = (expected_res.iter().cloned(), expected_res.iter().cloned());
+                    for (i, op) in c.ops.iter().enumerate() {
+                        if (c.seed >> (i % 64)) & 1 == 0 {
+                            drive_ops("restored_original_iter (first of two interleaved iterators)", std::slice::from_ref(op), &mut a, &mut ma)?;
+                        } else {
+                            drive_ops("restored_original_iter (second of two interleaved iterators)", std::slice::from_ref(op), &mut b, &mut mb)?;
+                        }
+                        let p = (c.seed as usize >> 7).wrapping_add(i * 5) % (k + 2);
+                        let want = if p < k && !have[p] { Some(data[p].as_slice()) } else { None };
+                        ensure!(res.restored_original(p) == want, "restored_original({p}) called between iterator operations differs from the expectation");
+                    }
+                    drive("restored_original_iter (first of two interleaved iterators)", &[], &mut a, &mut ma)?;
+                    drive("restored_original_iter (second of two interleaved iterators)", &[], &mut b, &mut mb)
+                })();
             }
         })
     })
